@@ -298,6 +298,8 @@ func (r *runningRoutine) execute(
 		select {
 		case <-ctx.Done():
 			err = context.Canceled
+			// wait for the previous instance before marking this one as exited
+			<-waitCh
 		case <-waitCh:
 		}
 	} else if ctx.Err() != nil {
